@@ -87,6 +87,12 @@ def run_roundtrip(case, ctx):
             after = T.snapshot(r_inner)
             diffs = [x for x in T.diff(before, after) if not x.startswith("values.agilerl_version")
                      and not x.startswith("values.wrapper_")]
+            if spec.get("share"):
+                stale = [x for x in diffs if x.startswith("tensors.") and ".encoder." in x and not x.startswith(f"tensors.{inner.registry.policy}")]
+                if stale:
+                    # see C01/faithful/shared_encoder_copy_differs: the saved agent's copy is stale, loading refreshes it
+                    ctx.abort("C07/shared_encoder_copy_differs", "share_encoders=True: the restored agent's non-policy encoder copies were "
+                              "refreshed from the policy while the saved agent's were stale", algo=algo, path=load_path, diffs=stale[:4])
             for x in diffs[:1]:
                 ctx.fail(f"{site}/differs/{_norm(x)}", f"restored agent differs from the saved one: {x}", algo=algo,
                          wrapper=wrapper, diffs=diffs[:6])
